@@ -69,51 +69,81 @@ def check(chk: Check) -> None:
     scopes = scope_list_attr(F)
 
     # --------------------------------------------------------------------- R1
-    q = SD + '.__getitem__'
-    fi = F.func(q)
-    selft = ('param', om.self_param(F, q))
-    keyp = ('param', fi.node.args.args[1].arg)
-    stack = ('attr', selft, scopes)
-    problems = []
-    paths = SymExec(F, fi).run()
-    hit = miss = 0
-    for p in paths:
-        loops = [c for e in p.events for c in e.in_ctx('loop')]
-        if p.outcome[0] == 'return':
-            # the value returned must be <scope>[key] for the loop's current scope, guarded by `key in scope`
-            ret = p.outcome[1]
-            ls = [c for e in p.events if e.kind == 'return' for c in e.in_ctx('loop')]
-            if not ls:
-                problems.append('returns %s outside a walk over the scopes' % show(ret))
+    # The lookup methods are evaluated on a stack of three distinct symbolic scopes [S0, S1, S2] (S2 innermost): whatever
+    # way the walk is written (reversed(), [::-1], index loops, helpers), the outcomes must be the decision list
+    #   key in S2 -> S2[key];  else key in S1 -> S1[key];  else key in S0 -> S0[key];  else LookupError.
+    S = [('sym', 'S%d' % i, 'scope', None, ('dict',)) for i in range(3)]
+    for mn in ('__getitem__', 'get', '__contains__'):
+        q = SD + '.' + mn
+        if q not in F.functions:
+            if mn == '__getitem__':
+                raise AnalysisError('anchor vanished: %s' % q)
+            continue
+        fi = F.func(q)
+        selft = ('param', om.self_param(F, q))
+        keyp = ('param', fi.node.args.args[1].arg)
+        dflt = ('param', fi.node.args.args[2].arg) if mn == 'get' and len(fi.node.args.args) > 2 else ('const', None)
+        stack = ListVal(list(S), 987654)
+        problems = []
+        seen = set()
+        for p in SymExec(F, fi, overrides={('attr', selft, scopes): stack}).run():
+            know = {}
+            other = []
+            for c, v, _ in p.assumptions:
+                if isinstance(c, tuple) and c[:3] == ('cmp', 'in', keyp) and c[3] in S:
+                    know[S.index(c[3])] = v
+                elif om.mentions(c, keyp) or any(om.mentions(c, x) for x in S):
+                    other.append(c)
+            # a failed `scope[key]` caught by a LookupError handler says the same as `key not in scope`
+            for e in p.events:
+                if e.kind == 'exc_edge' and all(t in (('builtin', 'KeyError'), ('builtin', 'LookupError')) for t in e.d.get('types', ())):
+                    for o, ix in e.d.get('subs', ()):
+                        if o in S and ix == keyp:
+                            know.setdefault(S.index(o), False)
+            if other:
+                problems.append('the walk also branches on `%s`' % show(other[0]))
                 continue
-            it = ls[-1][2]
-            order = iteration_order(it, stack)
-            if order == 'forward':
-                problems.append('the scopes are searched outermost-first (`%s`): builtins would shadow host names and parameters' % show(it))
-            elif order is None:
-                chk.unrec(R1, q + ' iteration', fi.where, 'scope walk `%s` is not one of the recognised idioms '
-                          '(reversed(stack), stack[::-1], downward index loop)' % show(it))
-                return
-            cur = ('elem', it, ls[-1][1])
-            if order == 'index-down':
-                cur = ('sub', stack, cur)
-            if ret != ('sub', cur, keyp):
-                problems.append('returns %s, not the entry of the scope being visited' % show(ret))
-            guards = [c for c, v, _ in p.assumptions if v and c == ('cmp', 'in', keyp, cur)]
-            if not guards:
-                problems.append('returns from a scope without testing that the key is in it')
-            hit += 1
-        elif p.outcome[0] == 'raise':
-            cls = _exc_builtin(F, p.outcome[1])
-            if cls is None or not issubclass(cls, LookupError):
-                problems.append('a missing name raises %s, which is not a LookupError (NameOp/CallOp convert LookupError only)' % show(p.outcome[1]))
-            miss += 1
-    if not hit:
-        problems.append('no path returns a value')
-    if not miss:
-        problems.append('no path raises for a missing name')
-    chk.require(not problems, R1, q, fi.where, '; '.join(sorted(set(problems))) or
-                'walks %s innermost-first, returns the first hit, raises KeyError otherwise' % scopes)
+            hit = [i for i in (2, 1, 0) if know.get(i) is True]
+            first = None
+            for i in (2, 1, 0):
+                if i not in know:
+                    break
+                if know[i]:
+                    first = i
+                    break
+            else:
+                first = -1          # all three tested, none holds the key
+            where_ = ', '.join('key %s S%d' % ('in' if know[i] else 'not in', i) for i in sorted(know, reverse=True)) or 'no test'
+            if p.outcome[0] == 'return':
+                ret = p.outcome[1]
+                if mn == '__contains__':
+                    want = ('const', first is not None and first >= 0)
+                    ok = first is not None and ret == want
+                elif first == -1:
+                    ok = mn == 'get' and ret == dflt
+                else:
+                    ok = first is not None and ret == ('sub', S[first], keyp)
+                if not ok:
+                    if hit and (first is None or first not in hit) and mn != '__contains__':
+                        problems.append('with %s the method returns %s: an outer scope is consulted before an inner one '
+                                        '(builtins would shadow host names, host names would shadow parameters)' % (where_, show(ret)))
+                    else:
+                        problems.append('with %s the method returns %s' % (where_, show(ret)))
+                seen.add(first)
+            elif p.outcome[0] == 'raise':
+                cls = _exc_builtin(F, p.outcome[1])
+                if first != -1 or mn != '__getitem__':
+                    problems.append('with %s the method raises %s' % (where_, show(p.outcome[1])))
+                elif cls is None or not issubclass(cls, LookupError):
+                    problems.append('a missing name raises %s, which is not a LookupError (NameOp/CallOp convert LookupError only)' % show(p.outcome[1]))
+                seen.add(first)
+        for want_, what in ((2, 'a hit in the innermost scope'), (1, 'a hit in the middle scope'), (0, 'a hit in the outermost scope'),
+                            (-1, 'a miss in all scopes')):
+            if want_ not in seen and not problems:
+                problems.append('no path handles %s' % what)
+        chk.require(not problems, R1, q, fi.where, '; '.join(sorted(set(problems))[:4]) or
+                    'on a three-scope stack: innermost first, first hit wins, %s on a miss' % (
+                        {'__getitem__': 'LookupError', 'get': 'the default', '__contains__': 'False'}[mn]))
 
     q = SD + '.__setitem__'
     fi = F.func(q)
@@ -201,6 +231,8 @@ def _is_push(e: Event, scopes: str) -> Optional[Any]:
         f = freeze(e.func)
         return f[1] if f[0] == 'attr' else None
     f = freeze(e.func)
+    if e.resolved is None and isinstance(f, tuple) and f and f[0] == 'attr' and f[2] == 'push_scope':
+        return f[1]         # receiver of unknown static type: the method name is unique to the scope stack
     if isinstance(f, tuple) and f and f[0] == 'attr' and f[2] == 'append' and isinstance(f[1], tuple) and f[1][0] == 'attr' and f[1][2] == scopes:
         return f[1][1]
     return None
@@ -213,6 +245,8 @@ def _is_pop(e: Event, scopes: str) -> Optional[Any]:
         f = freeze(e.func)
         return f[1] if f[0] == 'attr' else None
     f = freeze(e.func)
+    if e.resolved is None and isinstance(f, tuple) and f and f[0] == 'attr' and f[2] == 'pop_scope':
+        return f[1]
     if isinstance(f, tuple) and f and f[0] == 'attr' and f[2] == 'pop' and isinstance(f[1], tuple) and f[1][0] == 'attr' and f[1][2] == scopes \
             and (not e.args or freeze(e.args) == (('const', -1),)):
         return f[1][1]
@@ -227,14 +261,48 @@ def _r2(chk: Check, R2: str, scopes: str) -> None:
         if '.ply' in fi.module.name or q in (SD + '.push_scope', SD + '.pop_scope', SD + '.__init__'):
             continue
         src = ast.dump(fi.node)
-        if 'push_scope' not in src and scopes not in src and 'pop_scope' not in src:
+        if 'push_scope' not in src and scopes not in src and 'pop_scope' not in src and q != SD + '.make_scope':
             continue
         units.append((q, fi, SymExec(F, fi).run()))
         for c in om.all_closures(units[-1][2]):
             if True:
                 if 'push_scope' in ast.dump(c.node):
                     units.append((c.qual, fi, closure_paths(F, fi, c)))
+    # context-manager classes: __enter__ pushes, __exit__ pops; the pair is checked as a pair and the with-sites (where the
+    # evaluator runs both around the body) are checked like explicit push/try/finally code
+    cm_methods = {}
+    for cq, ci in F.classes.items():
+        if '.ply' in ci.module.name:
+            continue
+        en, ex = F.find_method(cq, '__enter__'), F.find_method(cq, '__exit__')
+        if en and ex and en in F.functions and ex in F.functions:
+            cm_methods[en] = ('enter', cq)
+            cm_methods[ex] = ('exit', cq)
+    cm_push_classes = set()
     for q, fi, paths in units:
+        if q not in cm_methods:
+            continue
+        role, cq = cm_methods[q]
+        counts = set()
+        for p in paths:
+            if not p.normal:
+                continue
+            n = sum(1 for e in p.events if (_is_push if role == 'enter' else _is_pop)(e, scopes) is not None)
+            counts.add(n)
+        other = [e for p in paths for e in p.events if (_is_pop if role == 'enter' else _is_push)(e, scopes) is not None]
+        if role == 'enter' and counts and counts != {0}:
+            cm_push_classes.add(cq)
+        if counts == {0} and not other:
+            continue
+        good = counts == {1} and not other and all(p.normal for p in paths)
+        chk.require(good, R2, q, fi.where, ('__enter__ pushes exactly one scope on every path' if role == 'enter' else
+                                             '__exit__ pops exactly one scope on every path, unconditionally') if good else
+                    '%s of a context manager %s (per path: %s)%s' % (
+                        '__enter__' if role == 'enter' else '__exit__', 'must push exactly once' if role == 'enter' else 'must pop exactly once',
+                        sorted(counts), '; it also %s' % ('pops' if role == 'enter' else 'pushes') if other else ''))
+    for q, fi, paths in units:
+        if q in cm_methods:
+            continue
         problems = []
         n_push = 0
         for p in paths:
@@ -272,14 +340,20 @@ def _r2(chk: Check, R2: str, scopes: str) -> None:
             continue
         if q == SD + '.make_scope':
             decos = [F.resolve_expr(fi.module, d) for d in fi.node.decorator_list]
-            if ('ext', 'contextlib.contextmanager') not in decos:
-                problems.append('make_scope is not a contextlib.contextmanager')
-            if n_push == 0:
-                problems.append('make_scope pushes nothing')
-            for p in paths:
-                ys = [e for e in p.events if e.kind == 'yield']
-                if len(ys) != 1:
-                    problems.append('make_scope yields %d times' % len(ys))
+            returned = {freeze(p.outcome[1])[1] if isinstance(freeze(p.outcome[1]), tuple) and freeze(p.outcome[1])[:1] == ('new',) else None
+                        for p in paths if p.normal and p.outcome[0] == 'return'}
+            if ('ext', 'contextlib.contextmanager') in decos:
+                if n_push == 0:
+                    problems.append('make_scope pushes nothing')
+                for p in paths:
+                    ys = [e for e in p.events if e.kind == 'yield']
+                    if len(ys) != 1:
+                        problems.append('make_scope yields %d times' % len(ys))
+            elif returned and None not in returned and returned <= cm_push_classes:
+                pass        # returns a context-manager object whose __enter__/__exit__ push and pop (checked above)
+            else:
+                problems.append('make_scope is neither a contextlib.contextmanager generator nor does it return a package '
+                                'context manager whose __enter__ pushes the scope')
         if q == setup_fn:
             chk.ok(R2, q + ' set-up pushes', fi.where, 'bottom/host scopes pushed once per eval call and never popped by design (checked by C10.R3)')
             continue
@@ -312,8 +386,8 @@ def _r3(chk: Check, R3: str) -> None:
     problems_ctor, problems_push = [], []
     n_ctor = 0
     for p in SymExec(F, fi).run():
-        ctors = [e for e in p.events if e.kind == 'call' and e.d.get('ctor') and e.resolved == SD and e.depth() == 0]
-        pushes = [e for e in p.events if e.kind == 'call' and e.resolved == SD + '.push_scope' and e.depth() == 0]
+        ctors = [e for e in p.events if e.kind == 'call' and e.d.get('ctor') and e.resolved == SD]
+        pushes = [e for e in p.events if e.kind == 'call' and e.resolved == SD + '.push_scope']
         if len(ctors) != 1:
             problems_ctor.append('%d ScopedDict objects are built on one path' % len(ctors))
             continue
@@ -445,6 +519,8 @@ def _r5(chk: Check, R5: str) -> None:
                     for x in before:
                         if x.kind == 'call' and x.resolved == SD + '.push_scope' and om.carries(freeze(x.func)[1], stt):
                             arg = freeze(x.args)[0] if x.args else None
+                            while isinstance(arg, tuple) and arg and arg[0] == 'phi':
+                                arg = arg[3]            # a dict filled in a loop is still the fresh dict it started as
                             if isinstance(arg, tuple) and arg and (arg[0] == 'dict' or (arg[0] == 'comp' and arg[1] == 'dict')):
                                 popped = [y for y in before if _is_pop(y, scopes_attr) is not None and y.eid > x.eid]
                                 if not popped:
